@@ -279,10 +279,11 @@ class RangeV(object):
 
 
 class ExcV(object):
-    __slots__ = ("cls", "args")
+    __slots__ = ("cls", "args", "attrs")
 
-    def __init__(self, cls, args=()):
+    def __init__(self, cls, args=(), attrs=None):
         self.cls, self.args = cls, tuple(args)
+        self.attrs = dict(attrs or {})       # attributes assigned to the exception object by a handler (`exc.chip = chip`)
 
     def __repr__(self):
         return "ExcV(%s)" % self.cls
